@@ -16,6 +16,37 @@ class AnalysisError(Exception):
     """An anchor is missing / a construct is not recognised: exit 2, never 1."""
 
 
+class _Canon(ast.NodeTransformer):
+    """Canonical polarity of branches: `if not c: A else: B` is analysed as `if c: B else: A`
+    (and `if not c: A` as `if c: pass else: A`), so that how a branch is spelled never matters to a rule."""
+
+    def visit_If(self, node):
+        self.generic_visit(node)
+        test, body, orelse = node.test, node.body, node.orelse
+        flipped = False
+        while isinstance(test, ast.UnaryOp) and isinstance(test.op, ast.Not):
+            test = test.operand
+            body, orelse = orelse, body
+            flipped = not flipped
+        if test is node.test:
+            return node
+        if not body:
+            p = ast.Pass()
+            ast.copy_location(p, node)
+            body = [p]
+        new = ast.If(test=test, body=body, orelse=orelse)
+        ast.copy_location(new, node)
+        new.end_lineno = getattr(node, "end_lineno", None)
+        return new
+
+    def visit_IfExp(self, node):
+        self.generic_visit(node)
+        if isinstance(node.test, ast.UnaryOp) and isinstance(node.test.op, ast.Not):
+            new = ast.IfExp(test=node.test.operand, body=node.orelse, orelse=node.body)
+            return ast.copy_location(new, node)
+        return node
+
+
 class Module:
     def __init__(self, name, path, relpath, src, is_pkg):
         self.name = name
@@ -23,7 +54,8 @@ class Module:
         self.relpath = relpath
         self.src = src
         self.is_pkg = is_pkg
-        self.tree = ast.parse(src, filename=path)
+        self.raw_tree = ast.parse(src, filename=path)  # as written (used for in-memory edits)
+        self.tree = _Canon().visit(ast.parse(src, filename=path))
         for n in ast.walk(self.tree):
             for c in ast.iter_child_nodes(n):
                 c._parent = n
